@@ -32,8 +32,9 @@ def random_expr(rng, tags=None):
             groups.append(g)
         ast = T.cnf_to_ast(groups)
         args = T.render_v1_groups(groups, lambda gi, ai: {"neg_char": rng.choice("-~"), "at": rng.random() < 0.5})
-        if len(args) == 1 and not groups[0][0][0] and len(groups[0]) == 1:
-            pass
+        if rng.random() < 0.2:
+            # blanks beside the commas inside ONE argument (a quoted --tags="@a, -@b"): still one or-group
+            args = [a.replace(",", rng.choice([", ", " , ", " ,"])) for a in args]
         return ast, ["--tags=%s" % a for a in args]
     if r < 0.62:
         # several --tags options, one of them a disjunction of parenthesised groups: "(a and b) or (c)" starts with '(' and ends
